@@ -27,6 +27,31 @@ CLAIMED = {
     note=TB + 'Percent escapes >= %80 are outside the modelled urllib fragment (Unmodelled).',
     technique='Coq proof + correspondence + decision-table oracle',
     design='6 C04'),
+ 'C07': dict(
+    text='Theorems (all configurations, all search strings): every unfolded result is typed with no unapplied query, no duplicates, sorted, the only error raised is SpilException, the "," alternatives of the path part are distributed as a cartesian product. The full denotation (aliases, "**" to leaf types, narrowing, query application per typed search) is an executable specification written from the property text, independent of model and code, compared with the implementation on every generated search; the model pipeline (extensions, or_op, expand, narrow, extrapolate, line by line) is compared with the implementation call by call.',
+    note=TB + 'PARTIAL: the refinement "pipeline = denotation" is not a theorem; it is checked by the python denotation oracle and by correspondence.',
+    technique='Coq proof of the structural clauses + executable denotation oracle + correspondence',
+    design='6 C07'),
+ 'C08': dict(
+    text='Theorems: glob2re with python re.match equals the glob relation ("*" = any run without "/", other characters literal; None iff a "[...]" class is formed), matching is segment-wise with equal segment counts; FindInList star search returns, each once, exactly the entries matching at least one search form; results are entries of the list. Differential run + oracle (independent glob matcher over the implementation\'s unfolded forms) over generated universes (hierarchies, leaf-only, near-miss / untyped / duplicate entries), incl. Sid.match.',
+    note=TB + 'A "[...]" class in a search is outside the model (Unmodelled) — the recorded D10 behaviour.',
+    technique='Coq proof (matcher soundness/completeness -> glob relation) + correspondence',
+    design='6 C08'),
+ 'C09': dict(
+    text='Theorems: segment-wise comparison is a strict total order; sort_paths sorts; group_firsts over the descending order returns exactly one entry per distinct prefix before the ">" position, the greatest of its group; composed for sorted_search. Differential run + oracle over universes with names containing "-", ".", "+", "_" and prefix-related names, ">" at every position, optional second ">".',
+    note=TB + 'List-backed finder proved; FindInPaths / FindInAll / get_last use the same generic sorted_search in the model and are tied by the file-system correspondence (C11/C18 checks).',
+    technique='Coq proof (order + sort + groupby) + correspondence',
+    design='6 C09'),
+ 'C10': dict(
+    text='Theorems: the result set is determined by the set of glob forms of the unfolded searches on any data set, results of concatenated search lists are unions, comma alternatives unfold to the cartesian product, no duplicates. The five rewrite rules are checked as result-set equalities on the implementation (pairs of searches over generated universes) and by correspondence.',
+    note=TB + 'PARTIAL: alias / "**" / filter / literal rules are oracle-checked, not theorems. FindInList part here; other finders through C11.',
+    technique='Coq proof (set-level lemmas over star_search) + rewrite-pair oracle + correspondence',
+    design='6 C10'),
+ 'C12': dict(
+    text='Theorems (Finder level): find_one is the head of find, exists is non-emptiness (guard: no empty-string entry; the edge is proved as a _refuted example), as_sid=False strings are the strings of the as_sid=True results. Differential run + oracle on FindInList universes; Sid.exists / children / siblings over the file-system model are tied by the data-layer correspondence.',
+    note=TB + 'Sid-level clauses (children / siblings / parent exists) are correspondence-only so far.',
+    technique='Coq proof + correspondence',
+    design='6 C12'),
  'C13': dict(
     text='Theorems about the cache wrappers as state machines (exact popitem eviction of caching.py at any capacity; functools.lru_cache over-approximated by arbitrary forgetting): every answer after any history equals the pure function, the invariant is kept, nested caches compose; key soundness of the repaired key (positional/keyword spellings bind alike), with the pinned tree\'s key refuted as a theorem; a Sid-object key never hits a plain-string entry. Tie: histories in single implementation processes (colliding pools, all spellings, both path configurations in either order, capacity 2-4, several hash seeds) compared call by call with the pure model, and a sample with fresh processes; a disagreement is replayed in a fresh process to produce the failing history.',
     note=TB + 'The wiring (which function sits behind which wrapper) is validated by the history correspondence, not derived from the source. Interpreter start-up state is not modelled; fresh-process comparison is sampled.',
